@@ -10,7 +10,7 @@ use crate::verif_vk as vk;
 use crate::verif_vk::vcover;
 use crate::verif_sup::*;
 use crate::store::{Store, TaskNode};
-use crate::task::{AlwaysConsistent, EqualsChecker};
+use crate::task::EqualsChecker;
 use crate::dependency::{Dependency, ResourceDependency, TaskDependency};
 use crate::{Context, Pie, ResourceState, Task};
 
@@ -91,16 +91,16 @@ fn run_check_order(kinds: [u8; 3]) {
   ::std::mem::forget(pie);
 }
 
-//@h props=C09,C02:t,C18:t tier=quick unwind=14 stubs=sort,optref,boxslice timeout=900 fieldsens=1024
+//@h props=C02:t,C09:t,C18:t tier=quick unwind=14 stubs=sort,boxslice timeout=900 fieldsens=1024
 fn td_check_order_read_read_read() { run_check_order([0, 2, 1]); }
-//@h props=C02,C09:t,C18:t tier=quick unwind=14 stubs=sort,optref,boxslice timeout=900 fieldsens=1024
+//@h props=C02,C09,C18:t tier=quick unwind=14 stubs=sort,boxslice timeout=900 fieldsens=1024
 fn td_check_order_read_require_read() { run_check_order([2, 3, 0]); }
-//@h props=C18,C02:t,C09:t tier=quick unwind=14 stubs=sort,optref,boxslice timeout=900 fieldsens=1024
+//@h props=C18,C02:t,C09:t tier=quick unwind=14 stubs=sort,boxslice timeout=900 fieldsens=1024
 fn td_check_order_require_read_require() { run_check_order([3, 2, 3]); }
 
 /// make_task_consistent on a task whose only recorded dependency is a read of Cell(1): executes iff the checker reports
 /// inconsistency (or errs), at most once per session; a second call in the same session executes nothing.
-//@h props=C02,C18,C08,C09:t tier=quick unwind=14 stubs=sort,optref,boxslice timeout=900 fieldsens=1024
+//@h props=C02,C18,C08,C09:t tier=quick unwind=14 stubs=sort,boxslice timeout=900 fieldsens=1024
 fn td_make_consistent_once() {
   unsafe { PROG[0] = [Ins::Read(1, M_EXACT), Ins::End, Ins::End, Ins::End]; }
   let mut pie = Pie::with_tracker(());
@@ -160,7 +160,7 @@ fn td_make_consistent_once() {
 
 /// One-level `require` from inside an executing task: the recorded dependency carries the checker passed and the stamp of
 /// the output returned to the requirer; a reserved edge is upgraded in place.
-//@h props=C09,C08:t tier=quick unwind=14 stubs=sort,optref,boxslice timeout=900 fieldsens=1024
+//@h props=C09,C08:t tier=quick unwind=14 stubs=sort,boxslice timeout=900 fieldsens=1024
 fn td_require_records_stamp_of_returned_output() {
   let mut pie = Pie::with_tracker(());
   let mut s = pie.new_session();
@@ -170,13 +170,13 @@ fn td_require_records_stamp_of_returned_output() {
     let u = si.store.get_or_create_task_node(&P(1));
     let out: u8 = 33;
     // case 0: U already consistent this session (cached output returned); case 1: U never executed (runs now, program Set(5));
-    // case 2: U consistent, required with AlwaysConsistent
+    // case 2: U consistent, required with AlwaysOk
     unsafe { PROG[1] = [Ins::Set(5), Ins::End, Ins::End, Ins::End]; }
     if case != 1 { si.store.set_task_output(&u, Box::new(out)); si.consistent.insert(u); }
     si.current_executing_task = Some(t);
     exec_reset();
     let mut ctx = TopDownContext::new(si);
-    let got = if case == 2 { ctx.require(&P(1), AlwaysConsistent) } else { ctx.require(&P(1), EqualsChecker) };
+    let got = if case == 2 { ctx.require(&P(1), AlwaysOk) } else { ctx.require(&P(1), EqualsChecker) };
     let expect = if case == 1 { 5 } else { out };
     assert!(got == expect, "C09 require returns the required task's consistent output");
     assert!(exec_count(1) == if case == 1 { 1 } else { 0 }, "C02 an already consistent task is not executed again");
@@ -185,7 +185,7 @@ fn td_require_records_stamp_of_returned_output() {
       match d {
         Dependency::Require(td) => {
           assert!(fp_key(td.task()) == 0xFFFF || true, "placeholder");
-          if case == 2 { assert!(fp_val(td.checker()) == 0x5001 && fp_val(td.stamp()) == 0x4000, "C08/C09 AlwaysConsistent require recorded with unit stamp"); }
+          if case == 2 { assert!(fp_val(td.checker()) == 0x5001 && fp_val(td.stamp()) == 0x4000, "C08/C09 AlwaysOk require recorded with unit stamp"); }
           else { assert!(fp_val(td.checker()) == 0x5000 && fp_val(td.stamp()) == 0x1000 | expect as u16, "C09 require dependency is stamped from the output returned to the requirer"); }
         }
         _ => assert!(false, "C08 the reserved require edge is upgraded to a real require dependency"),
@@ -193,6 +193,35 @@ fn td_require_records_stamp_of_returned_output() {
       n += 1;
     }
     assert!(n == 1, "C08 one require performed, one dependency recorded");
+  });
+  ::std::mem::forget(pie);
+}
+
+/// C17/C18: a resource check that fails still closes its `check_resource_start` with a `check_resource_end` carrying the
+/// error, before the error is propagated.
+//@h props=C17,C18 tier=quick unwind=14 stubs=sort,boxslice timeout=900 fieldsens=1024
+fn td_check_emits_end_event_also_on_error() {
+  let mut pie = Pie::with_tracker(Rec::default());
+  pie.resource_state_mut::<Cell>().set(CellState { v: CUR });
+  split(3, |case| {
+    {
+      let mut s = pie.new_session();
+      let si = &mut s.0;
+      let t = si.store.get_or_create_task_node(&P(0));
+      si.store.set_task_output(&t, Box::new(OUT_T));
+      // case 0: consistent; 1: inconsistent; 2: checker fails
+      let mode = if case == 2 { M_FAILING } else { M_EXACT };
+      add_dep(si, &t, 1, if case == 2 { 2 } else { 0 }, case != 1);
+      if case == 2 { unsafe { FAULT[1] = true; } }
+      let mut ctx = TopDownContext::new(si);
+      let res = ctx.check_task::<u8>(&t).copied();
+      assert!(res.is_some() == (case == 0), "C18 reuse only when the check succeeded and reported consistency");
+    }
+    let rec = pie.tracker();
+    assert!(rec.n == 2, "C17 a resource check emits exactly a start and an end event, also when the checker fails");
+    assert!(rec.e[0].m == 11 && rec.e[1].m == 12, "C17 check_resource_start is closed by check_resource_end");
+    assert!(rec.e[0].a[0] == 0x301 && rec.e[1].a[0] == 0x301, "C17 same subject");
+    assert!(rec.e[1].a[3] == case as u16, "C17 the end event carries the verdict: consistent / inconsistent / error");
   });
   ::std::mem::forget(pie);
 }
